@@ -4,7 +4,7 @@ from gosym.check import Task
 ID = 'C05'
 PKG = 'pkg/frame'
 HARNESS_FILES = ['pkg/frame/zz_verif_common.go', 'pkg/frame/zz_verif_c05.go', 'pkg/frame/zz_verif_dialect.go', 'pkg/frame/zz_verif_c02.go',
-                 'pkg/x25/zz_verif_c02.go', 'pkg/frame/zz_verif_c05d.go']
+                 'pkg/x25/zz_verif_c02.go', 'pkg/frame/zz_verif_c06.go', 'pkg/frame/zz_verif_c05d.go']
 ROOTS = ['verifHarness_C05']
 ALLOW = 'bufio,io,encoding/binary,errors,bytes'
 INITS = 'io,bufio,errors,github.com/bluenviron/gomavlib/v3/pkg/message'
@@ -58,6 +58,10 @@ def tasks(tier):
         for at in range(0, full + 1):
             for small in ((0,) if tier == 'quick' and at % 2 else (0, 1)):
                 ts.append(Task('verifHarness_C05_glitch', [kind, n, at, small]))
+    # K: keyed link: a refused complete frame, then a correctly signed one
+    for kind in (0, 1):
+        for n in ((0, 2, 5) if tier == 'quick' else (0, 1, 2, 3, 5, 9)):
+            ts.append(Task('verifHarness_C05_keyed', [kind, n]))
     # D: with a dialect: payloads shorter / exact / longer than the message, arbitrary checksum
     for n in ((0, 5, 9, 10, 20) if tier == 'quick' else (0, 1, 4, 5, 6, 9, 10, 15, 16, 19, 20, 40)):
         ts.append(Task('verifHarness_C05_dialect', [1, n], {'x25_uf': True}))
@@ -67,7 +71,7 @@ def tasks(tier):
 
 
 def required_reach(tier):
-    return ['C05/A', 'C05/B', 'C05/T', 'C05/D', 'C05/G']
+    return ['C05/A', 'C05/B', 'C05/T', 'C05/D', 'C05/G', 'C05/K']
 
 
 def bounds(tier):
@@ -79,7 +83,7 @@ def bounds(tier):
             'transient_fault': 'a valid v1 / signed v2 (quick) frame, every kind (thorough), followed by a second frame, with one non-sticky transport error after every offset, whole or 1-byte reads: the call that runs into the fault and the next one return frame xor error, no panic, fault reported at most once; a fault between frames loses nothing (stream drained)',
             'transport_end': 'io.EOF, and a non-EOF error after the last byte (= an error injected at every offset, since every length is explored)',
             'dialect': 'reader with the harness dialect (4 message shapes): a v1 / v2 frame with a dialect id, a payload of length ' + ('0,5,9,10,20' if tier == 'quick' else '0..40 (12 values)') + ' (shorter, exact, longer than the message), arbitrary bytes and checksum, then a valid frame: frame or parse error, never a panic, the following frame delivered, then EOF; crcstep uninterpreted',
-            'key': 'none (C06)'}
+            'keyed_link': 'reader with InKey (SHA-256 uninterpreted): a complete v1 / unsigned v2 frame of payload ' + ('0,2,5' if tier == 'quick' else '0,1,2,3,5,9') + ' with every byte arbitrary, then a correctly signed frame: one parse error consuming exactly the refused frame, the signed frame, EOF'}
 
 
 OUTSIDE = ['streams longer than the bound', 'underlying readers that return (0, nil)',
